@@ -488,6 +488,22 @@ def run_nj(spec, acc):
                     "tips": NAMES[:n]}, f"nj{n}")
 
 
+def run_nj_contrast(spec, acc):
+    """additive matrices whose internal edges are many orders of magnitude shorter than their terminal edges (all
+    dyadic, so every intermediate value of neighbour joining is exact in double precision): the join criterion of a
+    true cherry and of a wrong pair then differ only in the low bits of numbers of the size of the whole tree"""
+    n = spec["n"]
+    for idx, tree in enumerate(D.rooted_trees(range(1, n))):
+        if idx % spec["of"] != spec["chunk"]:
+            continue
+        es = D.unrooted_edge_sets(tree)
+        for shift in range(3):
+            ti, ii = itertools.count(shift), itertools.count(shift)
+            lens = tuple(2.0 ** (7 + next(ti) % 4) if len(e) in (1, n - 1) else 2.0 ** (-13 + next(ii) % 2) for e in es)
+            nj_case(n, tree, lens, NJ_FORMS_MAIN, acc)
+    acc.sample({"nj, contrasting edge lengths": True, "tips": n, "terminal": "2^7..2^10", "internal": "2^-13, 2^-12"}, f"njcontrast{n}")
+
+
 def upgma_case(n, tree, heights, forms, acc):
     names = NAMES[:n]
     metric, clades = D.dendrogram_metric(tree, heights)
@@ -541,6 +557,10 @@ def shards(tier, seed):
         of = min(of, ntrees)
         for c in range(of):
             out.append({"part": "nj", "n": n, "vals": vals, "all_forms": n <= b["nj_forms_tips"], "chunk": c, "of": of})
+    for n in (5, 6):
+        of = 4 if n == 5 else 16
+        for c in range(of):
+            out.append({"part": "njcontrast", "n": n, "chunk": c, "of": of})
     for n_s, H in sorted(b["upgma"].items()):
         n = int(n_s)
         of = 1 if n < 5 else (8 if n == 5 else 48)
@@ -551,7 +571,7 @@ def shards(tier, seed):
 
 def run_shard(spec, acc):
     {"est": run_est, "order": run_order, "noncanon": run_noncanon, "three": run_three, "protein": run_protein,
-     "nj": run_nj, "upgma": run_upgma}[spec["part"]](spec, acc)
+     "nj": run_nj, "njcontrast": run_nj_contrast, "upgma": run_upgma}[spec["part"]](spec, acc)
 
 
 def _tuplify(x):
